@@ -5,6 +5,7 @@ cd "$(dirname "$0")/.." || exit 2
 fail=0
 for d in seeded/*/; do
   id=$(basename "$d")
+  if grep -q '"retired"' "$d/meta.json"; then echo "retired  $id"; continue; fi
   out=$(meta/seedrun_iso.sh "$id" 2>&1 | tail -1)
   case "$out" in
     *"exit=1"*) echo "caught   $(echo "$out" | cut -c1-200)";;
